@@ -1,11 +1,863 @@
 package peersdrv
 
-import "verifharness/vh"
+// manager_test.go: behaviour replay (B2) of PeerManager.tla on the real Manager: a mocknet host, a real
+// shrex-sub instance, the real connection gater, a scripted header subscription. The model is
+// nondeterministic where the code's round-robin decides (which active peer is returned); the driver
+// executes an action on the real manager, observes the result and follows the model edge with the same
+// label, result and successor state. No such edge = the code left the model.
 
-type ManagerPlan struct{}
-type MScenario struct{}
-type StressPlan struct{}
+import (
+	"context"
+	"encoding/json"
+	"fmt"
+	"math/rand"
+	"os"
+	"reflect"
+	"sort"
+	"sync"
+	"sync/atomic"
+	"time"
 
-func runManagerPaths(rep *vh.Report, mp *ManagerPlan)   {}
-func runManagerWitness(rep *vh.Report, sc MScenario)    {}
-func runStress(rep *vh.Report, sp *StressPlan)          {}
+	"github.com/ipfs/go-datastore"
+	dssync "github.com/ipfs/go-datastore/sync"
+	pubsub "github.com/libp2p/go-libp2p-pubsub"
+	"github.com/libp2p/go-libp2p/core/event"
+	"github.com/libp2p/go-libp2p/core/host"
+	"github.com/libp2p/go-libp2p/core/network"
+	"github.com/libp2p/go-libp2p/core/peer"
+	"github.com/libp2p/go-libp2p/p2p/net/conngater"
+	mocknet "github.com/libp2p/go-libp2p/p2p/net/mock"
+
+	libhead "github.com/celestiaorg/go-header"
+
+	"github.com/celestiaorg/celestia-node/header"
+	"github.com/celestiaorg/celestia-node/share"
+	"github.com/celestiaorg/celestia-node/share/shwap/p2p/shrex/peers"
+	"github.com/celestiaorg/celestia-node/share/shwap/p2p/shrex/shrexsub"
+
+	"verifharness/vh"
+)
+
+// ---- the model's JSON ------------------------------------------------------------------------
+
+type MMPool struct {
+	Exists    bool              `json:"exists"`
+	Validated bool              `json:"validated"`
+	Height    uint64            `json:"height"`
+	Stale     bool              `json:"stale"`
+	St        map[string]string `json:"st"`
+}
+
+type MReq struct {
+	Peer string `json:"peer"`
+	Hash string `json:"hash"`
+	Src  string `json:"src"`
+}
+
+type MMState struct {
+	Pools         map[string]MMPool `json:"pools"`
+	Nodes         map[string]string `json:"nodes"`
+	Blocked       []string          `json:"blocked"`
+	BlHashes      []string          `json:"blHashes"`
+	InitialHeight uint64            `json:"initialHeight"`
+	StoreFrom     uint64            `json:"storeFrom"`
+	Head          int               `json:"head"`
+	Reqs          []MReq            `json:"reqs"`
+}
+
+type MMAct struct {
+	Act string          `json:"act"`
+	Arg json.RawMessage `json:"arg"`
+	Ret json.RawMessage `json:"ret"`
+}
+
+type MMEdge struct {
+	A  MMAct `json:"a"`
+	To int   `json:"to"`
+}
+
+type ManagerPlan struct {
+	Peers     []string   `json:"peers"`
+	Hashes    []string   `json:"hashes"`
+	Blacklist bool       `json:"enable_blacklisting"`
+	States    []MMState  `json:"states"`
+	Out       [][]MMEdge `json:"out"` // adjacency: Out[i] = edges leaving state i
+	Root      int        `json:"root"`
+	Walks     int        `json:"walks"`
+	MaxLen    int        `json:"maxlen"`
+}
+
+type MScenario struct {
+	Name      string   `json:"name"`
+	Peers     []string `json:"peers"`
+	Hashes    []string `json:"hashes"`
+	Blacklist bool     `json:"enable_blacklisting"`
+	Steps     []struct {
+		A MMAct   `json:"a"`
+		T MMState `json:"t"`
+	} `json:"steps"`
+}
+
+// ---- scripted header subscription ---------------------------------------------------------------
+
+type headerSub struct {
+	mu    sync.Mutex
+	cond  *sync.Cond
+	queue []*header.ExtendedHeader
+	idle  int // number of NextHeader calls that found the queue empty and are (or were) waiting
+	calls int
+}
+
+func newHeaderSub() *headerSub {
+	h := &headerSub{}
+	h.cond = sync.NewCond(&h.mu)
+	return h
+}
+
+func (s *headerSub) Subscribe() (libhead.Subscription[*header.ExtendedHeader], error) { return s, nil }
+func (s *headerSub) SetVerifier(func(context.Context, *header.ExtendedHeader) error) error {
+	return nil
+}
+func (s *headerSub) Cancel() {}
+
+func (s *headerSub) NextHeader(ctx context.Context) (*header.ExtendedHeader, error) {
+	stop := context.AfterFunc(ctx, func() {
+		s.mu.Lock()
+		s.cond.Broadcast()
+		s.mu.Unlock()
+	})
+	defer stop()
+	s.mu.Lock()
+	defer s.mu.Unlock()
+	s.calls++
+	s.cond.Broadcast()
+	for len(s.queue) == 0 {
+		if ctx.Err() != nil {
+			return nil, ctx.Err()
+		}
+		s.cond.Wait()
+	}
+	h := s.queue[0]
+	s.queue = s.queue[1:]
+	return h, nil
+}
+
+// deliver hands one header to the manager and returns when the manager has asked for the next one,
+// i.e. has completely processed this one.
+func (s *headerSub) deliver(h *header.ExtendedHeader, d time.Duration) bool {
+	s.mu.Lock()
+	want := s.calls + 1
+	if s.calls == 0 {
+		want = 2 // the subscription goroutine has not even asked for the first header yet
+	}
+	s.queue = append(s.queue, h)
+	s.cond.Broadcast()
+	expired := false
+	tm := time.AfterFunc(d, func() {
+		s.mu.Lock()
+		expired = true
+		s.cond.Broadcast()
+		s.mu.Unlock()
+	})
+	defer tm.Stop()
+	for s.calls < want && !expired {
+		s.cond.Wait()
+	}
+	ok := s.calls >= want
+	s.mu.Unlock()
+	return ok
+}
+
+// ---- a real manager -------------------------------------------------------------------------------
+
+type realManager struct {
+	m       *peers.Manager
+	host    host.Host
+	hs      *headerSub
+	cancel  context.CancelFunc
+	emitter event.Emitter
+	peers   []string
+	hashes  []string
+	bl      bool
+	dones   map[MReq]peers.DoneFunc
+	head    int
+	// hook counters for the node pool (disconnect handling is asynchronous)
+	cmu      sync.Mutex
+	ccond    *sync.Cond
+	counters map[string]int
+	nodesObj any
+	// monitors' ghosts
+	discovered map[string]bool
+	confirmed  map[string]bool
+}
+
+const poolTimeout = time.Hour
+
+var rawHook atomic.Pointer[func(obj any, ev string, id peer.ID)]
+
+func hashBytes(h string) share.DataHash {
+	b := make([]byte, 32)
+	copy(b, h)
+	return share.DataHash(b)
+}
+
+func newRealManager(peerNames, hashes []string, blacklisting bool) (*realManager, error) {
+	ctx, cancel := context.WithCancel(context.Background())
+	hst, err := mocknet.New().GenPeer()
+	if err != nil {
+		cancel()
+		return nil, err
+	}
+	ss, err := shrexsub.NewPubSub(ctx, hst, "verif")
+	if err != nil {
+		cancel()
+		return nil, err
+	}
+	gater, err := conngater.NewBasicConnectionGater(dssync.MutexWrap(datastore.NewMapDatastore()))
+	if err != nil {
+		cancel()
+		return nil, err
+	}
+	hs := newHeaderSub()
+	params := peers.Parameters{PoolValidationTimeout: poolTimeout, PeerCooldown: time.Hour, GcInterval: time.Hour, EnableBlackListing: blacklisting}
+	m, err := peers.NewManager(params, hst, gater, "verif", peers.WithShrexSubPools(ss, hs))
+	if err != nil {
+		cancel()
+		return nil, err
+	}
+	rm := &realManager{m: m, host: hst, hs: hs, cancel: cancel, peers: peerNames, hashes: hashes, bl: blacklisting,
+		dones: map[MReq]peers.DoneFunc{}, counters: map[string]int{}, discovered: map[string]bool{}, confirmed: map[string]bool{}}
+	rm.ccond = sync.NewCond(&rm.cmu)
+	rm.nodesObj = m.VerifNodes().Raw()
+	hook := func(obj any, ev string, id peer.ID) {
+		if obj != rm.nodesObj {
+			return
+		}
+		rm.cmu.Lock()
+		rm.counters[ev]++
+		rm.ccond.Broadcast()
+		rm.cmu.Unlock()
+	}
+	rawHook.Store(&hook)
+	if err := m.Start(ctx); err != nil {
+		cancel()
+		return nil, err
+	}
+	rm.emitter, err = hst.EventBus().Emitter(new(event.EvtPeerConnectednessChanged))
+	if err != nil {
+		cancel()
+		return nil, err
+	}
+	return rm, nil
+}
+
+func (rm *realManager) close() {
+	rawHook.Store(nil)
+	sctx, c := context.WithTimeout(context.Background(), 10*time.Second)
+	_ = rm.m.Stop(sctx)
+	c()
+	rm.cancel()
+	_ = rm.emitter.Close()
+	_ = rm.host.Close()
+}
+
+func (rm *realManager) waitCounter(ev string, above int, d time.Duration) bool {
+	expired := false
+	tm := time.AfterFunc(d, func() {
+		rm.cmu.Lock()
+		expired = true
+		rm.ccond.Broadcast()
+		rm.cmu.Unlock()
+	})
+	defer tm.Stop()
+	rm.cmu.Lock()
+	defer rm.cmu.Unlock()
+	for rm.counters[ev] <= above && !expired {
+		rm.ccond.Wait()
+	}
+	return rm.counters[ev] > above
+}
+
+func (rm *realManager) counter(ev string) int {
+	rm.cmu.Lock()
+	defer rm.cmu.Unlock()
+	return rm.counters[ev]
+}
+
+func poolSt(vp peers.VerifPool, names []string) map[string]string {
+	st := vp.State()
+	out := map[string]string{}
+	for _, p := range names {
+		out[p] = "none"
+	}
+	for id, s := range st.Statuses {
+		switch s {
+		case 0:
+			out[string(id)] = "active"
+		case 1:
+			out[string(id)] = "cooldown"
+		}
+	}
+	return out
+}
+
+// snapshot projects the real manager onto the model's state.
+func (rm *realManager) snapshot() MMState {
+	s := MMState{Pools: map[string]MMPool{}, Blocked: []string{}, BlHashes: []string{}, Reqs: []MReq{}, Head: rm.head}
+	real := rm.m.VerifPools()
+	for _, h := range rm.hashes {
+		p, ok := real[hashBytes(h).String()]
+		if !ok {
+			none := map[string]string{}
+			for _, q := range rm.peers {
+				none[q] = "none"
+			}
+			s.Pools[h] = MMPool{St: none}
+			continue
+		}
+		s.Pools[h] = MMPool{Exists: true, Validated: p.Validated, Height: p.Height, Stale: time.Since(p.CreatedAt) > poolTimeout, St: poolSt(p.Pool, rm.peers)}
+		delete(real, hashBytes(h).String())
+	}
+	for k := range real {
+		s.Pools["?"+k] = MMPool{Exists: true}
+	}
+	s.Nodes = poolSt(rm.m.VerifNodes(), rm.peers)
+	for _, p := range rm.peers {
+		if rm.m.VerifBlacklistedPeer(peer.ID(p)) {
+			s.Blocked = append(s.Blocked, p)
+		}
+	}
+	for _, h := range rm.hashes {
+		if rm.m.VerifBlacklistedHash(hashBytes(h).String()) {
+			s.BlHashes = append(s.BlHashes, h)
+		}
+	}
+	s.InitialHeight = rm.m.VerifInitialHeight()
+	s.StoreFrom = rm.m.VerifStoreFrom()
+	for r := range rm.dones {
+		s.Reqs = append(s.Reqs, r)
+	}
+	sortReqs(s.Reqs)
+	return s
+}
+
+func sortReqs(r []MReq) {
+	sort.Slice(r, func(i, j int) bool {
+		return fmt.Sprint(r[i]) < fmt.Sprint(r[j])
+	})
+}
+
+func normState(s MMState) MMState {
+	s.Blocked = append([]string{}, s.Blocked...)
+	s.BlHashes = append([]string{}, s.BlHashes...)
+	s.Reqs = append([]MReq{}, s.Reqs...)
+	sort.Strings(s.Blocked)
+	sort.Strings(s.BlHashes)
+	sortReqs(s.Reqs)
+	return s
+}
+
+// sameState compares ignoring `reqs` (the source of a request is not observable through the API).
+func sameState(a, b MMState, withReqs bool) bool {
+	a, b = normState(a), normState(b)
+	if !withReqs {
+		a.Reqs, b.Reqs = nil, nil
+	}
+	return reflect.DeepEqual(a, b)
+}
+
+func diffMState(m, r MMState) string {
+	m, r = normState(m), normState(r)
+	var d []string
+	for h, mp := range m.Pools {
+		if rp := r.Pools[h]; !reflect.DeepEqual(mp, rp) {
+			d = append(d, fmt.Sprintf("pool %s model=%+v real=%+v", h, mp, rp))
+		}
+	}
+	for h, rp := range r.Pools {
+		if _, ok := m.Pools[h]; !ok {
+			d = append(d, fmt.Sprintf("pool %s only in the real manager: %+v", h, rp))
+		}
+	}
+	if !reflect.DeepEqual(m.Nodes, r.Nodes) {
+		d = append(d, fmt.Sprintf("nodes model=%v real=%v", m.Nodes, r.Nodes))
+	}
+	if !reflect.DeepEqual(m.Blocked, r.Blocked) {
+		d = append(d, fmt.Sprintf("blocked model=%v real=%v", m.Blocked, r.Blocked))
+	}
+	if !reflect.DeepEqual(m.BlHashes, r.BlHashes) {
+		d = append(d, fmt.Sprintf("blacklisted hashes model=%v real=%v", m.BlHashes, r.BlHashes))
+	}
+	if m.InitialHeight != r.InitialHeight || m.StoreFrom != r.StoreFrom || m.Head != r.Head {
+		d = append(d, fmt.Sprintf("initialHeight/storeFrom/head model=%d/%d/%d real=%d/%d/%d", m.InitialHeight, m.StoreFrom, m.Head, r.InitialHeight, r.StoreFrom, r.Head))
+	}
+	return fmt.Sprint(d)
+}
+
+// exec performs one model action on the real manager and returns the observed result as JSON text.
+func (rm *realManager) exec(rep *vh.Report, a MMAct, pre MMState, replayObj any) (ret string, pendingReq *MReq, pendingDone peers.DoneFunc, err error) {
+	ctx := context.Background()
+	switch a.Act {
+	case "notify":
+		var arg struct {
+			Peer   string `json:"peer"`
+			Hash   string `json:"hash"`
+			Height uint64 `json:"height"`
+		}
+		_ = json.Unmarshal(a.Arg, &arg)
+		var res pubsub.ValidationResult
+		rm.call(rep, "Validate", replayObj, func() {
+			res = rm.m.Validate(ctx, peer.ID(arg.Peer), shrexsub.Notification{DataHash: hashBytes(arg.Hash), Height: arg.Height})
+		})
+		if pre.Pools[arg.Hash].Validated && res == pubsub.ValidationIgnore && !contains(pre.Blocked, arg.Peer) {
+			rm.confirmed[arg.Peer] = true
+		}
+		switch res {
+		case pubsub.ValidationAccept:
+			return `"accept"`, nil, nil, nil
+		case pubsub.ValidationReject:
+			return `"reject"`, nil, nil, nil
+		default:
+			return `"ignore"`, nil, nil, nil
+		}
+	case "header":
+		var arg struct {
+			Hash   string `json:"hash"`
+			Height uint64 `json:"height"`
+		}
+		_ = json.Unmarshal(a.Arg, &arg)
+		for p, s := range pre.Pools[arg.Hash].St {
+			if s != "none" {
+				rm.confirmed[p] = true
+			}
+		}
+		h := &header.ExtendedHeader{RawHeader: header.RawHeader{Height: int64(arg.Height), DataHash: []byte(hashBytes(arg.Hash))}}
+		if !rm.hs.deliver(h, watchdog) {
+			return "", nil, nil, fmt.Errorf("the header subscription goroutine did not take / finish the header within %s", watchdog)
+		}
+		rm.head++
+		return `"-"`, nil, nil, nil
+	case "request":
+		var arg struct {
+			Hash   string `json:"hash"`
+			Height uint64 `json:"height"`
+		}
+		_ = json.Unmarshal(a.Arg, &arg)
+		for p, s := range pre.Pools[arg.Hash].St {
+			if s != "none" {
+				rm.confirmed[p] = true
+			}
+		}
+		cctx, cancel := context.WithCancel(ctx)
+		cancel() // do not wait: a peer that is available is returned, otherwise the call ends with ctx.Err()
+		var pid peer.ID
+		var done peers.DoneFunc
+		var perr error
+		rm.call(rep, "Peer", replayObj, func() { pid, done, perr = rm.m.Peer(cctx, hashBytes(arg.Hash), arg.Height) })
+		if perr != nil {
+			return `"-"`, nil, nil, nil
+		}
+		if rm.bl && contains(pre.Blocked, string(pid)) {
+			where := "node pool"
+			if pre.Pools[arg.Hash].St[string(pid)] == "active" {
+				where = "hash pool"
+			}
+			rep.Violate("C17/manager/blacklisted-peer-offered",
+				fmt.Sprintf("Manager.Peer(%s) returned %s from the %s although the peer is black-listed (blocked in the connection gater) and black-listing is enabled",
+					arg.Hash, pid, where), replayObj)
+		}
+		return fmt.Sprintf("%q", string(pid)), &MReq{Peer: string(pid), Hash: arg.Hash}, done, nil
+	case "done":
+		var arg struct {
+			Peer   string `json:"peer"`
+			Hash   string `json:"hash"`
+			Src    string `json:"src"`
+			Result string `json:"result"`
+		}
+		_ = json.Unmarshal(a.Arg, &arg)
+		key := MReq{Peer: arg.Peer, Hash: arg.Hash, Src: arg.Src}
+		done, ok := rm.dones[key]
+		if !ok {
+			key.Src = ""
+			done, ok = rm.dones[key]
+		}
+		if !ok {
+			return "", nil, nil, fmt.Errorf("no outstanding request %v", key)
+		}
+		delete(rm.dones, key)
+		rm.call(rep, "DoneFunc", replayObj, func() {
+			switch arg.Result {
+			case "noop":
+				done(peers.ResultNoop)
+			case "cooldown":
+				done(peers.ResultCooldownPeer)
+			case "blacklist":
+				done(peers.ResultBlacklistPeer)
+			}
+		})
+		return `"-"`, nil, nil, nil
+	case "discovery":
+		var arg struct {
+			Peer  string `json:"peer"`
+			Added bool   `json:"added"`
+		}
+		_ = json.Unmarshal(a.Arg, &arg)
+		rm.call(rep, "UpdateNodePool", replayObj, func() { rm.m.UpdateNodePool(peer.ID(arg.Peer), arg.Added) })
+		if arg.Added && !contains(pre.Blocked, arg.Peer) {
+			rm.discovered[arg.Peer] = true
+		} else if !arg.Added {
+			delete(rm.discovered, arg.Peer)
+		}
+		return `"-"`, nil, nil, nil
+	case "disconnect":
+		var p string
+		_ = json.Unmarshal(a.Arg, &p)
+		c0, r0 := rm.counter("has.runlock"), rm.counter("remove.unlock")
+		if err := rm.emitter.Emit(event.EvtPeerConnectednessChanged{Peer: peer.ID(p), Connectedness: network.NotConnected}); err != nil {
+			return "", nil, nil, err
+		}
+		if !rm.waitCounter("has.runlock", c0, watchdog) {
+			return "", nil, nil, fmt.Errorf("the disconnect event was not processed within %s", watchdog)
+		}
+		if pre.Nodes[p] != "none" && !rm.waitCounter("remove.unlock", r0, watchdog) {
+			return "", nil, nil, fmt.Errorf("the disconnected peer was not removed within %s", watchdog)
+		}
+		return `"-"`, nil, nil, nil
+	case "age":
+		var h string
+		_ = json.Unmarshal(a.Arg, &h)
+		if !rm.m.VerifAgePool(hashBytes(h).String(), 2*poolTimeout) {
+			return "", nil, nil, fmt.Errorf("age: no pool %s", h)
+		}
+		return `"-"`, nil, nil, nil
+	case "gc":
+		var bl []peer.ID
+		rm.call(rep, "GC", replayObj, func() { bl = rm.m.VerifGCOnce() })
+		out := []string{}
+		for _, id := range bl {
+			out = append(out, string(id))
+		}
+		sort.Strings(out)
+		b, _ := json.Marshal(out)
+		return string(b), nil, nil, nil
+	}
+	return "", nil, nil, fmt.Errorf("unknown action %q", a.Act)
+}
+
+func (rm *realManager) call(rep *vh.Report, what string, replayObj any, f func()) {
+	ok, dump := vh.WithWatchdog(watchdog, f)
+	if !ok {
+		rep.Violate("C17/manager/call-did-not-return", fmt.Sprintf("Manager.%s did not return within %s in a sequential replay\n%s", what, watchdog, trimDump(dump)), replayObj)
+		panic("manager call hung: " + what)
+	}
+}
+
+func contains(s []string, x string) bool {
+	for _, y := range s {
+		if y == x {
+			return true
+		}
+	}
+	return false
+}
+
+func normRet(raw json.RawMessage) string {
+	var v any
+	if json.Unmarshal(raw, &v) != nil {
+		return string(raw)
+	}
+	if l, ok := v.([]any); ok {
+		ss := []string{}
+		for _, x := range l {
+			ss = append(ss, fmt.Sprint(x))
+		}
+		sort.Strings(ss)
+		b, _ := json.Marshal(ss)
+		return string(b)
+	}
+	b, _ := json.Marshal(v)
+	return string(b)
+}
+
+// monitorNodes: a peer in the node pool was reported by discovery or announced a confirmed hash.
+func (rm *realManager) monitorNodes(rep *vh.Report, st MMState, replayObj any) {
+	for p, s := range st.Nodes {
+		if s != "none" && !rm.discovered[p] && !rm.confirmed[p] {
+			rep.Violate("C17/manager/unconfirmed-peer-in-node-pool",
+				fmt.Sprintf("%s is in the node pool (%s) although discovery never reported it and no data hash it announced has been confirmed by a header", p, s), replayObj)
+		}
+	}
+}
+
+// ---- graph walk -------------------------------------------------------------------------------------
+
+func runManagerPaths(rep *vh.Report, mp *ManagerPlan) {
+	rng := rand.New(rand.NewSource(vh.Seed()))
+	covered := map[[2]int]bool{}
+	drift := 0
+	theSched.Store(nil)
+	for w := 0; w < mp.Walks; w++ {
+		var trail []MMAct
+		res := ""
+		panicked, val := vh.Recover(func() { res = managerWalk(rep, mp, rng, covered, &trail) })
+		rep.Count("manager_walks", 1)
+		rep.Count("traces_validated_against_impl", 1)
+		if panicked {
+			rep.Inconclusivef("manager walk %d aborted: %s", w, firstLine(val))
+			continue
+		}
+		if res != "" {
+			drift++
+			if drift <= 3 {
+				rep.Sample(map[string]any{"kind": "manager-mismatch", "walk": w, "what": res, "trail": trail})
+				rep.Inconclusivef("conformance drift (manager): walk %d after %d steps: %s", w, len(trail), res)
+			}
+		} else if w < 2 {
+			rep.Sample(map[string]any{"kind": "manager-walk-ok", "steps": len(trail), "trail": trail})
+		}
+	}
+	total := 0
+	for _, o := range mp.Out {
+		total += len(o)
+	}
+	rep.Set("manager_edges", total)
+	rep.Set("manager_edges_replayed", len(covered))
+	rep.Set("manager_drift", drift)
+	rep.Count("manager_edges_replayed", int64(len(covered)))
+}
+
+func firstLine(s string) string {
+	for i, c := range s {
+		if c == '\n' {
+			return s[:i]
+		}
+	}
+	return s
+}
+
+func managerWalk(rep *vh.Report, mp *ManagerPlan, rng *rand.Rand, covered map[[2]int]bool, trail *[]MMAct) string {
+	rm, err := newRealManager(mp.Peers, mp.Hashes, mp.Blacklist)
+	if err != nil {
+		panic(err)
+	}
+	defer rm.close()
+	cur := mp.Root
+	for step := 0; step < mp.MaxLen; step++ {
+		out := mp.Out[cur]
+		if len(out) == 0 {
+			return ""
+		}
+		// choose an action label: prefer labels with an uncovered edge
+		var fresh []int
+		for i := range out {
+			if !covered[[2]int{cur, i}] {
+				fresh = append(fresh, i)
+			}
+		}
+		pick := rng.Intn(len(out))
+		if len(fresh) > 0 {
+			pick = fresh[rng.Intn(len(fresh))]
+		}
+		a := out[pick].A
+		*trail = append(*trail, a)
+		replayObj := map[string]any{"kind": "manager-walk", "peers": mp.Peers, "hashes": mp.Hashes, "enable_blacklisting": mp.Blacklist, "actions": *trail}
+		pre := rm.snapshot()
+		ret, preq, pdone, err := rm.exec(rep, a, pre, replayObj)
+		if err != nil {
+			return fmt.Sprintf("%s: %v", a.Act, err)
+		}
+		post := rm.snapshot()
+		rm.monitorNodes(rep, post, replayObj)
+		rep.Count("manager_steps", 1)
+		// follow the model edge with this label, this result and this successor state
+		next := -1
+		retSeen := false
+		for i, e := range out {
+			if e.A.Act != a.Act || string(e.A.Arg) != string(a.Arg) {
+				continue
+			}
+			if normRet(e.A.Ret) != normRet(json.RawMessage(ret)) {
+				continue
+			}
+			retSeen = true
+			if sameState(mp.States[e.To], post, false) {
+				next = i
+				break
+			}
+		}
+		if next < 0 {
+			if !retSeen {
+				return fmt.Sprintf("%s(%s) returned %s, which the model does not allow in this state", a.Act, a.Arg, ret)
+			}
+			return fmt.Sprintf("after %s(%s)->%s: %s", a.Act, a.Arg, ret, diffMState(mp.States[out[pick].To], post))
+		}
+		covered[[2]int{cur, next}] = true
+		if preq != nil {
+			// the source (hash pool / node pool) is what the model says for the matched edge
+			for _, r := range mp.States[out[next].To].Reqs {
+				if r.Peer == preq.Peer && r.Hash == preq.Hash {
+					if _, dup := rm.dones[r]; !dup || true {
+						rm.dones[r] = pdone
+					}
+				}
+			}
+		}
+		cur = out[next].To
+	}
+	return ""
+}
+
+// runManagerWitness replays a counterexample of the model variant WITHOUT the black-list fix.
+func runManagerWitness(rep *vh.Report, sc MScenario) {
+	theSched.Store(nil)
+	out := map[string]any{"of": len(sc.Steps)}
+	before := len(rep.Violations)
+	panicked, val := vh.Recover(func() {
+		rm, err := newRealManager(sc.Peers, sc.Hashes, sc.Blacklist)
+		if err != nil {
+			panic(err)
+		}
+		defer rm.close()
+		var trail []MMAct
+		for i, st := range sc.Steps {
+			trail = append(trail, st.A)
+			replayObj := map[string]any{"kind": "manager-witness", "scenario": sc.Name, "peers": sc.Peers, "hashes": sc.Hashes, "enable_blacklisting": sc.Blacklist, "actions": trail}
+			pre := rm.snapshot()
+			ret, preq, pdone, err := rm.exec(rep, st.A, pre, replayObj)
+			if err != nil {
+				out["diverged"] = fmt.Sprintf("step %d %s: %v", i, st.A.Act, err)
+				return
+			}
+			if preq != nil {
+				for _, r := range st.T.Reqs {
+					if r.Peer == preq.Peer && r.Hash == preq.Hash {
+						rm.dones[r] = pdone
+					}
+				}
+			}
+			post := rm.snapshot()
+			rm.monitorNodes(rep, post, replayObj)
+			out["steps"] = i + 1
+			if normRet(st.A.Ret) != normRet(json.RawMessage(ret)) {
+				out["diverged"] = fmt.Sprintf("step %d %s(%s): real result %s, unfixed model %s", i, st.A.Act, st.A.Arg, ret, st.A.Ret)
+				return
+			}
+			if !sameState(st.T, post, false) {
+				out["diverged"] = fmt.Sprintf("step %d after %s(%s): %s", i, st.A.Act, st.A.Arg, diffMState(st.T, post))
+				return
+			}
+		}
+	})
+	if panicked {
+		out["diverged"] = "aborted: " + firstLine(val)
+	}
+	out["violations"] = len(rep.Violations) - before
+	rep.Count("witness_replayed", 1)
+	rep.Set("mwitness_"+sc.Name, out)
+}
+
+// ---- random walks recorded for trace validation (B1) -----------------------------------------------
+
+type MTracePlan struct {
+	Peers      []string `json:"peers"`
+	Hashes     []string `json:"hashes"`
+	Chain      []string `json:"chain"`
+	First      uint64   `json:"first_height"`
+	MsgHeights []uint64 `json:"msg_heights"`
+	Blacklist  bool     `json:"enable_blacklisting"`
+	Walks      int      `json:"walks"`
+	Len        int      `json:"len"`
+	Out        string   `json:"out"`
+}
+
+func mustJSON(v any) json.RawMessage {
+	b, err := json.Marshal(v)
+	if err != nil {
+		panic(err)
+	}
+	return b
+}
+
+func runManagerWalks(rep *vh.Report, tp *MTracePlan) {
+	theSched.Store(nil)
+	rng := rand.New(rand.NewSource(vh.Seed()*7919 + 17))
+	f, err := os.Create(tp.Out)
+	if err != nil {
+		panic(err)
+	}
+	defer f.Close()
+	lines := 0
+	emit := func(v any) {
+		b, _ := json.Marshal(v)
+		f.Write(append(b, '\n'))
+		lines++
+	}
+	for w := 0; w < tp.Walks; w++ {
+		emit(map[string]any{"act": "reset"})
+		panicked, val := vh.Recover(func() {
+			rm, err := newRealManager(tp.Peers, tp.Hashes, tp.Blacklist)
+			if err != nil {
+				panic(err)
+			}
+			defer rm.close()
+			var trail []MMAct
+			for step := 0; step < tp.Len; step++ {
+				pre := rm.snapshot()
+				a := randomManagerAction(rng, tp, rm, pre)
+				trail = append(trail, a)
+				replayObj := map[string]any{"kind": "manager-random-walk", "peers": tp.Peers, "hashes": tp.Hashes, "enable_blacklisting": tp.Blacklist, "actions": trail}
+				ret, preq, pdone, err := rm.exec(rep, a, pre, replayObj)
+				if err != nil {
+					rep.Inconclusivef("manager random walk %d step %d %s: %v", w, step, a.Act, err)
+					return
+				}
+				if preq != nil {
+					rm.dones[*preq] = pdone
+				}
+				post := rm.snapshot()
+				rm.monitorNodes(rep, post, replayObj)
+				emit(map[string]any{"act": a.Act, "arg": a.Arg, "ret": json.RawMessage(ret), "t": normState(post)})
+				rep.Count("manager_walk_steps", 1)
+			}
+		})
+		if panicked {
+			rep.Inconclusivef("manager random walk %d aborted: %s", w, firstLine(val))
+		}
+		rep.Count("manager_random_walks", 1)
+	}
+	rep.Set("manager_trace_lines", lines)
+}
+
+func randomManagerAction(rng *rand.Rand, tp *MTracePlan, rm *realManager, pre MMState) MMAct {
+	pick := func(s []string) string { return s[rng.Intn(len(s))] }
+	for {
+		switch k := rng.Intn(100); {
+		case k < 30:
+			return MMAct{Act: "notify", Arg: mustJSON(map[string]any{"peer": pick(tp.Peers), "hash": pick(tp.Hashes), "height": tp.MsgHeights[rng.Intn(len(tp.MsgHeights))]})}
+		case k < 38:
+			if rm.head < len(tp.Chain) {
+				return MMAct{Act: "header", Arg: mustJSON(map[string]any{"hash": tp.Chain[rm.head], "height": tp.First + uint64(rm.head)})}
+			}
+		case k < 58:
+			if rm.head > 0 && len(rm.dones) == 0 {
+				i := rng.Intn(rm.head)
+				return MMAct{Act: "request", Arg: mustJSON(map[string]any{"hash": tp.Chain[i], "height": tp.First + uint64(i)})}
+			}
+		case k < 72:
+			for r := range rm.dones {
+				return MMAct{Act: "done", Arg: mustJSON(map[string]any{"peer": r.Peer, "hash": r.Hash, "src": r.Src, "result": pick([]string{"noop", "cooldown", "blacklist", "blacklist"})})}
+			}
+		case k < 82:
+			return MMAct{Act: "discovery", Arg: mustJSON(map[string]any{"peer": pick(tp.Peers), "added": rng.Intn(3) > 0})}
+		case k < 87:
+			return MMAct{Act: "disconnect", Arg: mustJSON(pick(tp.Peers))}
+		case k < 93:
+			h := pick(tp.Hashes)
+			if p := pre.Pools[h]; p.Exists && !p.Stale {
+				return MMAct{Act: "age", Arg: mustJSON(h)}
+			}
+		default:
+			return MMAct{Act: "gc", Arg: mustJSON(none)}
+		}
+	}
+}
